@@ -19,7 +19,7 @@ from concurrent.futures import ThreadPoolExecutor
 
 import vlib
 
-SCRIPTS = "/repo/crates/fuel-core/redis_leader_lease_adapter_scripts"
+SCRIPTS = os.path.join(vlib.REPO, "crates/fuel-core/redis_leader_lease_adapter_scripts")
 RECORDED = os.path.join(vlib.VERIF, "replays", "C25", "recorded-before-fix-early-stop.ndjson")
 
 
@@ -68,6 +68,8 @@ def harness(hbin, mode, out, budget, **kw):
 def run(rep, tier, args):
     quick = tier == "quick"
     rep.assumptions += [
+        "even node counts: 2 nodes in the MC (depth 14; thorough also 4 nodes, depth 9) and 2- and 4-node chaos on the real "
+        "adapter, including walks in which each replica reaches only its own half of the nodes",
         "coarse MC: 2 replicas x 3 nodes x heights<=2, epochs<=3, <=2 blocks per replica, <=1 crash per replica, "
         "<=1 abandoned write in flight; two-replica graphs are explored to a BFS depth bound (quick 11/12 quorum "
         "operations, thorough 12/12 with late promote/release as well), the single-replica graph completely (quick) or to depth 22 with 2 epochs (thorough)",
@@ -95,7 +97,11 @@ def run(rep, tier, args):
 
     suffix = "" if quick else "_thorough"
     mc_jobs = [("one", "MC_LeaderLease_one%s.cfg" % suffix, 0), ("b0", "MC_LeaderLease_b0%s.cfg" % suffix, 0),
-               ("b1", "MC_LeaderLease_b1%s.cfg" % suffix, 1), ("earlystop", "MC_LeaderLease_earlystop.cfg", 0)]
+               ("b1", "MC_LeaderLease_b1%s.cfg" % suffix, 1), ("earlystop", "MC_LeaderLease_earlystop.cfg", 0),
+               # even node counts: a majority of 2 nodes is 2, of 4 nodes 3 - never one half
+               ("n2", "MC_LeaderLease_n2.cfg", 0)]
+    if not quick:
+        mc_jobs.append(("n4", "MC_LeaderLease_n4.cfg", 0))
 
     def mc(job):
         label, cfg, budget = job
@@ -130,6 +136,12 @@ def run(rep, tier, args):
         n0, n1 = (60, 30) if quick else (800, 300)
         t_r0 = harness(hbin, "random", os.path.join(wd, "random-b0.ndjson"), 0, walks=n0, len=30)
         t_r1 = harness(hbin, "random", os.path.join(wd, "random-b1.ndjson"), 1, walks=n1, len=30)
+        # even node counts; with --split every replica reaches only its own half of the nodes: two
+        # halves must never both be a quorum
+        m = 1 if quick else 8
+        even = [("b3-n2-split", harness(hbin, "random", os.path.join(wd, "random-n2-split.ndjson"), 0, walks=10 * m, len=24, nodes=2, split=1), "n2"),
+                ("b3-n4-split", harness(hbin, "random", os.path.join(wd, "random-n4-split.ndjson"), 0, walks=6 * m, len=24, nodes=4, split=1), "n4"),
+                ("b3-n2", harness(hbin, "random", os.path.join(wd, "random-n2.ndjson"), 0, walks=12 * m, len=30, nodes=2), "n2")]
         mc_res = [f.result() for f in f_mc] + [f.result() for f in f_fine]
         walk_sets = dict(f.result() for f in f_walks)
 
@@ -174,6 +186,10 @@ def run(rep, tier, args):
         for w in ws:
             rep.count_case(w)
         rep.judge_trace("Trace_LeaderLease", "Trace_LeaderLease_b%d.cfg" % budget, tp, name="C25-" + nm, key_fn=key, timeout=3000)
+    for nm, tp, cfgn in even:
+        for w in vlib.split_trace(tp):
+            rep.count_case(w)
+        rep.judge_trace("Trace_LeaderLease", "Trace_LeaderLease_%s.cfg" % cfgn, tp, name="C25-" + nm, key_fn=key, timeout=3000)
     ws = vlib.split_trace(t_r0)
     rep.add_sample({"chaos_events": [json.loads(x) for x in ws[0][1:4]]})
     stats = {"rpc": 0, "late": 0, "commit": 0, "import": 0, "expire": 0, "crash": 0, "lose": 0}
